@@ -3,12 +3,12 @@
 # usage: tools/seedmatrix.sh [out-file]
 export GOFLAGS=-mod=mod GOPROXY=off GOSUMDB=off GOTOOLCHAIN=local
 OUT=${1:-/tmp/seedmatrix.txt}
-W=/tmp/seedrepo
+W=${SEEDREPO:-/tmp/seedrepo}
 git -C /repo worktree remove --force $W 2>/dev/null
 git -C /repo worktree add -q --detach $W HEAD
 mkdir -p /tmp/seedout
 : > $OUT
-for d in /verif/seeded/C*; do
+for d in /verif/seeded/${SEEDGLOB:-C*}; do
   id=$(basename $d); prop=${id:0:3}
   P=$d/patch.diff; [ -f $d/patch.rebased.diff ] && P=$d/patch.rebased.diff
   git -C $W reset -q --hard HEAD; git -C $W clean -fdq
@@ -16,7 +16,7 @@ for d in /verif/seeded/C*; do
   # does the demo still fail on the fixed tree with the patch?
   place=$(head -1 $d/demo_test.go | sed -n 's#.*place in: *\([^ ]*\).*#\1#p'); [ -z "$place" ] && place=.
   cp $d/demo_test.go $W/$place/zz_seed_demo_test.go
-  rflag=""; [ "$id" = "C12a" ] && rflag="-race"
+  rflag=""; case $id in C12*) rflag="-race";; esac
   demo=$(cd $W && go test $rflag -vet=off -count=1 ./$place 2>&1 | grep -E "^(ok|FAIL|---)" | tail -1 | cut -c1-20)
   rm $W/$place/zz_seed_demo_test.go
   t0=$(date +%s)
